@@ -72,7 +72,9 @@ THEOREMS = {
             "sel_rows", "radius_rows_filter", "nhoodRow_good", "radius_nhoodRow_perm", "radius_predictChunk_perm",
             "radius_impPredict_perm", "radius_impFit_perm", "radius_impPartialFit_perm", "radius_row_order",
             "idx_perm", "range_filterMap", "lsh_selectIdx_nodup", "lsh_rows_perm", "lsh_nhoodRow_perm", "lsh_predictChunk_perm",
-            "lsh_impPredict_perm", "lsh_impFit_perm", "lsh_impPartialFit_perm", "lsh_row_order"],
+            "lsh_impPredict_perm", "lsh_impFit_perm", "lsh_impPartialFit_perm", "lsh_row_order",
+            "vadd_right_comm", "madd_right_comm", "addGram_perm", "addXty_perm", "fitRec_perm_all", "fit_perm_all",
+            "partialFit_perm_all"],
 }
 
 IMPORTS = {
@@ -97,7 +99,7 @@ IMPORTS = {
     "C19": ["MabModel.Props.C19"],
     "C20": ["MabModel.Props.C20", "MabModel.Props.C20b", "MabModel.Props.C20c", "MabModel.Props.C20d",
             "MabModel.Props.C20e", "MabModel.Props.C20f", "MabModel.Props.C20g",
-            "MabModel.Props.C20h", "MabModel.Props.C20i"],
+            "MabModel.Props.C20h", "MabModel.Props.C20i", "MabModel.Props.C20j"],
 }
 
 
